@@ -35,10 +35,10 @@ func HarnessC15_Concurrent() {
 	if vTier() == 1 {
 		pingData = vBytes(vChoice(2))
 	}
-	withClose := vChoice(2) == 1
+	withClose := vChoice(2) == 0 // the richer configuration is explored first
 	// finite: the control senders pass a deadline two milliseconds ahead; waiting for the write lock may
 	// then time out (the symbolic run forks on the timer firing)
-	finite := vChoice(2) == 1
+	finite := vChoice(2) == 0
 	deadline := time.Time{}
 	if finite {
 		deadline = time.Now().Add(2 * time.Millisecond)
@@ -53,7 +53,7 @@ func HarnessC15_Concurrent() {
 	// data writer
 	// the data writer may work under a write deadline of its own; it closes its message writer
 	// whatever Write returned (the usual deferred Close)
-	dataDL := !withClose && !direct && vChoice(2) == 1
+	dataDL := !withClose && !direct && vChoice(2) == 0
 	go func() {
 		if dataDL {
 			c.SetWriteDeadline(time.Now().Add(2 * time.Millisecond))
